@@ -305,6 +305,8 @@ def _meshes(kind, Nproc, size=2.5):
         if kind == "QUAD8+TRI6":
             # at this size gmsh's recombination leaves triangles: a mesh that really mixes two element types of the main dimension
             return Mesher().Mesh_2D(Domain(Point(), Point(10, 6), 2.5), [], ElemType.QUAD8)
+        if kind == "TRI3.offset":          # no node at the origin
+            return Mesher().Mesh_2D(Domain(Point(1, 1), Point(11, 7), size), [], ElemType.TRI3)
         if kind == "TRI3.hole":
             return Mesher().Mesh_2D(dom, [Circle(Point(5, 3), 2.0, size / 2)], ElemType.TRI3)
         if kind == "mixed":
@@ -496,8 +498,18 @@ def _check_merge(list_mesh, merged, mapping, tol=1e-12, unique=True):
         out.append("two nodes with different coordinates share a merged index")
     from scipy.spatial import cKDTree
     pairs = cKDTree(C).query_pairs(tol, output_type="ndarray")
-    if len(pairs) and (M[pairs[:, 0]] != M[pairs[:, 1]]).any():
-        out.append("two coincident nodes keep different merged indices")
+    owner = np.concatenate([np.full(len(c), i) for i, c in enumerate(allc)])
+    if len(pairs):
+        cross = owner[pairs[:, 0]] != owner[pairs[:, 1]]
+        if (M[pairs[cross, 0]] != M[pairs[cross, 1]]).any():
+            out.append("two coincident nodes of different meshes keep different merged indices")
+        # two coincident nodes of ONE mesh (crack lips) stay distinct unless another mesh has a node there (then both are identified with it)
+        for a, b in pairs[~cross]:
+            if M[a] == M[b]:
+                others = np.where((owner != owner[a]) & (np.abs(C - C[a]).max(axis=1) <= tol))[0]
+                if len(others) == 0:
+                    out.append(f"two coincident nodes of mesh {int(owner[a])} (nodes of a crack) were welded although no other mesh has a node there")
+                    break
     if len(set(M.tolist())) != mc.shape[0]:
         out.append(f"merged mesh has {mc.shape[0]} nodes, the mapping reaches {len(set(M.tolist()))}")
     # elements: remapped union
@@ -566,6 +578,13 @@ def ob_merge_lists(case):
     elif case == "single":
         ms = [mk(0, 2)]
         want_nodes = ms[0].Nn
+    elif case == "crack":
+        # a mesh holding two coincident nodes of its own (split centre node: the tip region of a crack), merged with a neighbour that shares two boundary nodes only
+        from . import patches
+        m1 = patches.real_mesh("TRI3", [[0, 0, 0], [1, 0, 0], [1, 1, 0], [0, 1, 0], [0.5, 0.5, 0], [0.5, 0.5, 0]], [[0, 1, 4], [1, 2, 4], [2, 3, 5], [3, 0, 5]])
+        m2 = patches.real_mesh("TRI3", [[1, 0, 0], [2, 0, 0], [2, 1, 0], [1, 1, 0]], [[0, 1, 2], [0, 2, 3]])
+        ms = [m1, m2]
+        want_nodes = 6 + 4 - 2
     elif case in ("lifted", "lifted.first", "storeys", "tilted", "volume+volume"):
         # meshes that do not all lie in the z = 0 plane: nodes with the same (x, y) and another z are NOT coincident
         def moved(m, dz=0.0, rot=None):
@@ -630,9 +649,9 @@ def build(tier, seed):
             ([("HEXA8", "elastic", 3), ("TRI3.hole", "thermal", 7), ("TETRA10", "elastic", 2)] if thorough else []):
         obs.append(Ob(f"C20.rows.{physics}.{kind}.{Nproc}", ob_rows, (kind, physics, Nproc), "X", ("EasyFEA/Simulations/_simu.py::_Simu.Assembly", "EasyFEA/FEM/_mesh.py::Mesh._Get_mpi_owned_nodes"),
                       bound="one gmsh mesh", clause="K, M, C of a part == global on the owned rows; owned-row energies and reactions sum to the global ones", timeout=1800))
-    for kind, Nproc in [("TRI3", 3), ("mixed", 4), ("QUAD8+TRI6", 5), ("TETRA4", 2)]:
+    for kind, Nproc in [("TRI3", 3), ("mixed", 4), ("QUAD8+TRI6", 5), ("TETRA4", 2), ("TRI3.offset", 3)]:
         obs.append(Ob(f"C20.merge.parts.{kind}.{Nproc}", ob_merge_parts, (kind, Nproc), "X", (f"{MESH}::Mesh.Merge",), bound="one gmsh mesh", clause="Merge(parts) == global mesh; mapping carries coordinates", timeout=900))
-    for case in ("adjacent", "disjoint", "duplicate", "mixed-types", "nomerge", "single", "lifted", "lifted.first", "storeys", "tilted", "volume+volume"):
+    for case in ("adjacent", "disjoint", "duplicate", "mixed-types", "nomerge", "single", "crack", "lifted", "lifted.first", "storeys", "tilted", "volume+volume"):
         obs.append(Ob(f"C20.merge.{case}", ob_merge_lists, (case,), "X", (f"{MESH}::Mesh.Merge",), bound="structured rectangles", clause="mapping[i][j] carries coordinates; merged index shared iff coincident; remapped union of elements", timeout=900))
     obs.append(Ob("canary.algo", ob_algo_canary, (), "B", expect=REFUTED))
     return dict(
